@@ -36,9 +36,9 @@ DIGITS = ["0", "1", "7", "10", "007", "00", "42", "255", "65535", "0123456789", 
 STRINGS = ['"abc"', '""', '"CRC32"', '"a\\"b"', '"a\\\\"', '"x y"', '"// no comment"', '"`tick`"', '"it\'s"', '"\\n"',
            '"été"', '"消息"', '"a\tb"', '"{,}"', '"\\é"', '"1"', '"packet"', '"\U0001f600"']
 DOCS = ["`doc`", "``", "`two words`", "`line1\nline2`", "`crlf\r\nline`", "`消息类型`", "`say \"hi\"`",
-        "`// not a comment`", "`it's`", "`tab\there`", "`{ , }`", "`\n`", "`a\\`", "`é`", "`u8 x,`"]
+        "`// not a comment`", "`it's`", "`tab\there`", "`{ , }`", "`\n`", "`a\\`", "`é`", "`u8 x,`", "`100% of %d`"]
 COMMENTS = ["// c", "//", "// packet A { u8 x, }", "//\tt", "// 注释", "// `tick` \"quote\" 'q'", "/// triple", "// a // b",
-            "//x", "// trailing space ", "// @lengthOf(", "// \U0001f600 emoji"]
+            "//x", "// trailing space ", "// @lengthOf(", "// \U0001f600 emoji", "// 50% %s"]
 PAD_CHARS = ["'0'", "' '", "'\\x00'"]
 PAD_ATTRS = ["@leftPad", "@rightPad"]
 
